@@ -286,60 +286,247 @@ func casterF(h *hctx) {
 // misuse: must be reported by a panic
 // ---------------------------------------------------------------------------------------------------------------
 
-func casterMisuse(h *hctx) {
-	fresh := func() *ChanCaster[chan int, int] { return NewChanCaster(make(chan int)) }
-	mustPanic := func(desc string, x *ChanCaster[chan int, int], pre []int, delta int) {
-		for _, d := range pre {
-			if _, p := casterSafeAdd(x, d); p {
-				h.line("MONITOR C08 contract-following Add(%d) panicked in: %s", d, desc)
-				return
-			}
-		}
-		if r, p := casterSafeAdd(x, delta); !p {
-			h.line("MONITOR C08 misuse went unreported: %s: Add(%d) returned %d instead of panicking", desc, delta, r)
-		}
-		h.count("misuse_cases", 1)
+// casterTimed runs one library call in its own goroutine; blocked = it had not returned after casterHangDur (the
+// goroutine is then abandoned together with its caster).
+type casterCallRes struct {
+	ret               int
+	panicked, blocked bool
+}
+
+func casterTimed(f func() (int, bool)) casterCallRes {
+	done := make(chan casterCallRes, 1)
+	go func() {
+		r, p := f()
+		done <- casterCallRes{ret: r, panicked: p}
+	}()
+	select {
+	case r := <-done:
+		return r
+	case <-time.After(casterHangDur):
+		return casterCallRes{blocked: true}
 	}
-	mustPanic("Add(-1) on an empty caster", fresh(), nil, -1)
-	mustPanic("Add(MaxInt32+1)", fresh(), nil, casterMaxI+1)
-	mustPanic("Add(-MaxInt32-1)", fresh(), []int{5}, -casterMaxI-1)
-	mustPanic("Add(MinInt64)", fresh(), []int{5}, math.MinInt64)
-	mustPanic("Add(MaxInt64)", fresh(), nil, math.MaxInt64)
-	mustPanic("unbalanced Add(2);Add(-3)", fresh(), []int{2}, -3)
-	mustPanic("unbalanced Add(1);Add(-1);Add(-1)", fresh(), []int{1, -1}, -1)
-	mustPanic("overflow Add(MaxInt32);Add(1)", fresh(), []int{casterMaxI}, 1)
-	mustPanic("overflow Add(MaxInt32-1);Add(2)", fresh(), []int{casterMaxI - 1}, 2)
+}
+
+type casterCall struct {
+	send  bool
+	delta int
+}
+
+func (c casterCall) String() string {
+	if c.send {
+		return "Send"
+	}
+	switch c.delta {
+	case math.MinInt64:
+		return "Add(MinInt64)"
+	case math.MaxInt64:
+		return "Add(MaxInt64)"
+	}
+	return fmt.Sprintf("Add(%d)", c.delta)
+}
+
+func casterSeqString(calls []casterCall) string {
+	s := ""
+	for i, c := range calls {
+		if i > 0 {
+			s += ";"
+		}
+		s += c.String()
+	}
+	return s
+}
+
+func casterValidWord(w uint64) bool {
+	hi, lo := uint32(w>>32), uint32(w)
+	return hi <= casterMaxI && (lo == hi || lo == hi+casterMaxI)
+}
+
+var casterMisuseBlocked int
+
+// casterMisuseSeq: [pre] are contract-following Adds (must return), [bad] must panic, then the tails Add(0) and Send are
+// called. Every call runs under a deadline. After the panicking call the word decides what the tails must do (the model:
+// Proofs/Caster.v sticky_while_invalid): on an invalid word both must panic; on a valid word Add(0) must return the count
+// and, once the count has been brought back to 0 by a balanced Add, Send must return 0. None may block.
+func casterMisuseSeq(h *hctx, pre []int, bad int) {
+	if casterMisuseBlocked >= 4 {
+		h.count("misuse_skipped_after_blocked_calls", 1)
+		return
+	}
+	x := NewChanCaster(make(chan int))
+	var calls []casterCall
+	lastPanic := ""
+	do := func(c casterCall) (casterCallRes, bool) {
+		calls = append(calls, c)
+		r := casterTimed(func() (int, bool) {
+			if c.send {
+				return casterSafeSend(x, 1)
+			}
+			return casterSafeAdd(x, c.delta)
+		})
+		if r.blocked {
+			casterMisuseBlocked++
+			if lastPanic != "" {
+				h.line("MONITOR C08 misuse: %s blocked for 2 s after a panicking %s (sequence %s)", c, lastPanic, casterSeqString(calls))
+			} else {
+				h.line("MONITOR C08 misuse: %s blocked for 2 s (sequence %s)", c, casterSeqString(calls))
+			}
+			return r, false
+		}
+		if r.panicked && lastPanic == "" {
+			lastPanic = c.String() // the first call that panicked
+		}
+		return r, true
+	}
+	for _, d := range pre {
+		r, ok := do(casterCall{delta: d})
+		if !ok {
+			return
+		}
+		if r.panicked {
+			h.line("MONITOR C08 contract-following %s panicked (sequence %s)", casterCall{delta: d}, casterSeqString(calls))
+			return
+		}
+	}
+	r, ok := do(casterCall{delta: bad})
+	if !ok {
+		return
+	}
+	h.count("misuse_cases", 1)
+	if !r.panicked {
+		h.line("MONITOR C08 misuse went unreported: %s returned %d instead of panicking (sequence %s)", casterCall{delta: bad}, r.ret,
+			casterSeqString(calls))
+		return
+	}
+	// tails
+	w := x.state.Load()
+	valid := casterValidWord(w)
+	r, ok = do(casterCall{delta: 0})
+	if !ok {
+		return
+	}
+	switch {
+	case !valid && !r.panicked:
+		h.line("MONITOR C08 misuse went unreported: Add(0) returned %d on the invalid word %#x left by a panicking call (sequence %s)",
+			r.ret, w, casterSeqString(calls))
+	case valid && r.panicked:
+		h.line("MONITOR C08 Add(0) panicked on the valid word %#x (sequence %s)", w, casterSeqString(calls))
+	case valid && r.ret != int(uint32(w>>32)):
+		h.line("MONITOR C08 Add(0) returned %d on the word %#x (sequence %s)", r.ret, w, casterSeqString(calls))
+	}
+	if valid && uint32(w) == uint32(w>>32) && w != 0 {
+		// nobody listens on this caster: deregister everybody so that the Send has nothing to hand out
+		r, ok = do(casterCall{delta: -int(uint32(w >> 32))})
+		if !ok {
+			return
+		}
+		if r.panicked || r.ret != 0 {
+			h.line("MONITOR C08 balanced %s on the valid word %#x: panicked=%v ret=%d (sequence %s)", calls[len(calls)-1], w, r.panicked,
+				r.ret, casterSeqString(calls))
+			return
+		}
+	} else if valid && w != 0 {
+		return // armed word: not reachable here
+	}
+	r, ok = do(casterCall{send: true})
+	if !ok {
+		return
+	}
+	switch {
+	case !valid && !r.panicked:
+		h.line("MONITOR C08 misuse went unreported: Send returned %d on the invalid word %#x left by a panicking call (sequence %s)",
+			r.ret, w, casterSeqString(calls))
+	case valid && (r.panicked || r.ret != 0):
+		h.line("MONITOR C08 Send on an empty caster: panicked=%v ret=%d (sequence %s)", r.panicked, r.ret, casterSeqString(calls))
+	}
+	h.count("misuse_tails", 1)
+}
+
+func casterMisuse(h *hctx) {
+	casterMisuseBlocked = 0
+	// negative underflow
+	casterMisuseSeq(h, nil, -1)
+	casterMisuseSeq(h, nil, -2)
+	casterMisuseSeq(h, []int{2}, -3)
+	casterMisuseSeq(h, []int{1, -1}, -1)
+	casterMisuseSeq(h, []int{3, -2}, -2)
+	casterMisuseSeq(h, nil, -casterMaxI)
+	// positive overflow
+	casterMisuseSeq(h, []int{casterMaxI}, 1)
+	casterMisuseSeq(h, []int{casterMaxI - 1}, 2)
+	casterMisuseSeq(h, []int{1}, casterMaxI)
+	casterMisuseSeq(h, []int{casterMaxI, -1, 1}, 1)
+	// out-of-range deltas (the word must stay untouched), including deltas >= 2^32 whose low 32 bits are small
+	for _, pre := range [][]int{nil, {5}} {
+		for _, d := range []int{casterMaxI + 1, -casterMaxI - 1, math.MinInt64, math.MaxInt64, 1 << 32, 1<<32 + 1, 1<<32 + 5,
+			-(1 << 32), -(1<<32 + 1), 3 << 32, 1<<40 + 2, -(1<<40 + 2)} {
+			casterMisuseSeq(h, pre, d)
+		}
+	}
 	for i := 0; i < 8; i++ {
 		a := 1 + h.rng.Intn(50)
-		mustPanic(fmt.Sprintf("unbalanced Add(%d);Add(%d)", a, -a-1-i), fresh(), []int{a}, -a-1-i)
+		casterMisuseSeq(h, []int{a}, -a-1-i)
+		casterMisuseSeq(h, []int{casterMaxI - a}, a+1+i)
 	}
 	// "every later call panics too": after an unbalanced Add that was NOT compensated every later call must panic
 	{
-		x := fresh()
-		casterSafeAdd(x, -2)
-		if r, p := casterSafeAdd(x, 0); !p {
-			h.line("MONITOR C08 misuse went unreported: Add(0) returned %d after an uncompensated Add(-2)", r)
-		}
-		if r, p := casterSafeAdd(x, 1); !p {
-			h.line("MONITOR C08 misuse went unreported: Add(1) returned %d after an uncompensated Add(-2)", r)
-		}
-		if r, p := casterSafeSend(x, 1); !p {
-			h.line("MONITOR C08 misuse went unreported: Send returned %d after an uncompensated Add(-2)", r)
+		x := NewChanCaster(make(chan int))
+		seq := []casterCall{{delta: -2}, {delta: 0}, {delta: 1}, {delta: 0}, {send: true}, {delta: 0}}
+		lastPanic := ""
+		for i, c := range seq {
+			c := c
+			r := casterTimed(func() (int, bool) {
+				if c.send {
+					return casterSafeSend(x, 1)
+				}
+				return casterSafeAdd(x, c.delta)
+			})
+			if r.blocked {
+				h.line("MONITOR C08 misuse: %s blocked for 2 s after a panicking %s (sequence %s)", c, lastPanic, casterSeqString(seq[:i+1]))
+				break
+			}
+			if !r.panicked {
+				h.line("MONITOR C08 misuse went unreported: %s returned %d after an uncompensated Add(-2) (sequence %s)", c, r.ret,
+					casterSeqString(seq[:i+1]))
+				break
+			}
+			if lastPanic == "" {
+				lastPanic = c.String()
+			}
 		}
 	}
 	// the F4 shape: a panicking Add whose successor brings the running sum back into range
 	{
-		x := fresh()
-		if r, p := casterSafeAdd(x, -1); !p {
-			h.line("MONITOR C08 misuse went unreported: Add(-1) on an empty caster returned %d (sticky sequence)", r)
+		x := NewChanCaster(make(chan int))
+		add := func(d int) casterCallRes { return casterTimed(func() (int, bool) { return casterSafeAdd(x, d) }) }
+		r := add(-1)
+		if r.blocked {
+			h.line("MONITOR C08 misuse: Add(-1) blocked for 2 s (sequence Add(-1))")
 			return
 		}
-		if r, p := casterSafeAdd(x, 1); !p {
-			h.line("MONITOR C08 sticky: Add(+1) returned %d right after Add(-1) panicked", r)
+		if !r.panicked {
+			h.line("MONITOR C08 misuse went unreported: Add(-1) on an empty caster returned %d (sticky sequence)", r.ret)
 			return
 		}
-		if _, p := casterSafeAdd(x, 0); !p {
+		r = add(1)
+		if r.blocked {
+			h.line("MONITOR C08 misuse: Add(1) blocked for 2 s after a panicking Add(-1) (sequence Add(-1);Add(1))")
+			return
+		}
+		if !r.panicked {
+			h.line("MONITOR C08 sticky: Add(+1) returned %d right after Add(-1) panicked", r.ret)
+			return
+		}
+		r = add(0)
+		if r.blocked {
+			h.line("MONITOR C08 misuse: Add(0) blocked for 2 s after a panicking Add(1) (sequence Add(-1);Add(1);Add(0))")
+			return
+		}
+		if !r.panicked {
 			h.line("MONITOR C08 sticky: later call did not panic after Add(-1) panicked (sequence Add(-1);Add(+1);Add(0))")
+		}
+		// whatever the verdict on stickiness, no later call may block
+		if s := casterTimed(func() (int, bool) { return casterSafeSend(x, 1) }); s.blocked {
+			h.line("MONITOR C08 misuse: Send blocked for 2 s after a panicking Add(1) (sequence Add(-1);Add(1);Add(0);Send)")
 		}
 		h.count("sticky_sequence", 1)
 	}
@@ -552,7 +739,13 @@ func casterK2Case(h *hctx, id string, phased bool, shape *[3]int) {
 	for v, n := range byVal {
 		h.line("MONITOR C08 %d receivers got value %d that no Send of this caster sent (%s)", n, v, desc())
 	}
-	final, fp := casterSafeAdd(x, 0)
+	fr := casterTimed(func() (int, bool) { return casterSafeAdd(x, 0) })
+	if fr.blocked {
+		h.line("MONITOR C08 Add(0) blocked for 2 s after all calls returned (%s)", desc())
+		casterHangs++
+		return
+	}
+	final, fp := fr.ret, fr.panicked
 	if fp {
 		h.line("MONITOR C08 Add(0) panicked after all calls returned (%s)", desc())
 	} else if final != 0 {
